@@ -46,6 +46,11 @@ structure PendingRelease where
   id : Nat
   rc : Nat
   state : SendState
+  /-- Ghost: serial number of this release entry (not in the code, never printed), assigned by
+  `queue_release` from the ghost counter `Outbound.nextRser`. -/
+  rser : Nat := 0
+  /-- Ghost: serial (`RetainedPacket.ser`) of the retained PUBLISH whose PUBREC created this entry. -/
+  pser : Nat := 0
   deriving DecidableEq, Repr, Inhabited
 
 structure RetainedPacket where
@@ -66,6 +71,8 @@ structure Outbound where
   release : List PendingRelease
   /-- Ghost: number of packets retained so far. -/
   nextSer : Nat := 0
+  /-- Ghost: number of release entries queued so far. -/
+  nextRser : Nat := 0
   deriving Repr, Inhabited
 
 namespace Outbound
@@ -146,9 +153,16 @@ def ackPacket (o : Outbound) (id : Nat) (k : AckKind) : Outbound × Bool :=
 
 def hasRetained (o : Outbound) (id : Nat) : Bool := o.retained.any (fun e => e.id == id)
 
-def queueRelease (o : Outbound) (id rc : Nat) : Option Outbound :=
+/-- Ghost: the serial of the retained entry that `ack_packet id k` would remove (0 if there is none). -/
+def ackedSer (o : Outbound) (id : Nat) (k : AckKind) : Nat :=
+  ((o.retained.find? (fun e => e.id == id && k.acknowledges (o.headerAt e.offset))).map (·.ser)).getD 0
+
+/-- `queue_release`. `pser` is ghost (the serial of the PUBLISH this entry continues); so are the
+entry's `rser` and the counter `nextRser`. -/
+def queueRelease (o : Outbound) (id rc : Nat) (pser : Nat := 0) : Option Outbound :=
   if o.release.length ≥ MAX_PENDING_RELEASE then none
-  else some { o with release := o.release ++ [{ id := id, rc := rc, state := .write 0 }] }
+  else some { o with release := o.release ++ [{ id := id, rc := rc, state := .write 0, rser := o.nextRser, pser := pser }],
+                     nextRser := o.nextRser + 1 }
 
 def ackRelease (o : Outbound) (id : Nat) : Outbound × Bool :=
   if o.release.any (fun e => e.id == id) then
